@@ -87,6 +87,7 @@ type PathState struct {
 	tainted   map[*Term]bool
 	taintSeen map[*Term]bool
 	synthNow  uint64
+	syncMaps  map[*Value]*Map
 }
 
 func newPathState() *PathState {
@@ -653,6 +654,9 @@ func (e *Engine) Assert(c *Term, label string, known *Term, finding string) {
 		// c is implied by pc
 		e.path.pcSet[c] = true
 		return
+	}
+	if e.path.replayIn != nil {
+		return // concrete run: record the failure and carry on, like the native runtime
 	}
 	// continue the path under the assumption that the assertion held
 	e.Assume(c)
